@@ -37,9 +37,14 @@ CFG = {
                       "connection per identity and direction, and every pool entry was authenticated on its own connection.",
         "level_note": "Assumed, not proved: signatures are unforgeable and domain-separated (hypothesis `Unforgeable`), the Noise "
                       "handshake hash is unique per session (`SessionsWellFormed`; the harness monitors it on every session it "
-                      "creates), a PoolWatch call is atomic (async mutex in watch.rs), so `every interleaving` = `every "
-                      "sequence` — concurrent batches on a 4-thread runtime are checked for linearizability by the harness "
-                      "but only their order-independent facts are compared with the model. `sendOk = false` (failing "
+                      "creates), a PoolWatch call is atomic (one critical section under the async mutex in watch.rs), so `every "
+                      "interleaving` = `every sequence`. That assumption is not proved but is tested on every run: the "
+                      "`pool_contended` ops hold the sender lock through the hook, queue 2-4 insert/remove calls on it (same "
+                      "identity, competing identities, reconnect racing with removal), release it and require the exact outcome "
+                      "of the sequential run in queue order (fair FIFO mutex) — results, contents and a quota probe — so a "
+                      "check made outside the critical section is caught deterministically; concurrent batches on a 4-thread "
+                      "runtime are additionally checked for linearizability, with only their order-independent facts compared "
+                      "with the model. `sendOk = false` (failing "
                       "send_proto) is modelled and covered by the theorems but not produced by the harness. Undecodable / "
                       "oversize / truncated frames are one model input (`recv = none`). Scheduling inside tokio and the "
                       "rest of run_stream (RPC service) are outside the model. The models are hand-written transcriptions; "
@@ -51,18 +56,21 @@ CFG = {
         "rule": "ops = directed list (each handshake function x {honest peer, adversary under its own key with one deviation at "
                 "a time, 11 malformed frames, reflection, replay from a second session, man-in-the-middle relay with field "
                 "rewriting}, PoolWatch boundary cases, two node scenarios incl. F8) + N random handshake scenarios + N/2 random "
-                "pool cases (4-16 calls, then often a concurrent batch) + N/25 random node cases (4-10 connection attempts / "
+                "pool cases (4-16 calls, 0-2 forced-contention groups of 2-4 calls queued on the held sender lock each followed "
+                "by a quota probe, then often a concurrent batch) + N/25 random node cases (4-10 connection attempts / "
                 "disconnects on a real Network); non-trivial = distinct op lines whose observation class differs from the "
                 "run's most common one",
         "trusted": ["hand transcription of handshake/mod.rs (x2), pool.rs, and the admission paths of gossip/runner.rs, "
                     "consensus/mod.rs into Model/Handshake.lean, Model/Pool.lean, Model/PeerNet.lean",
                     "the harness' abstraction of real frames (key index, session label, symbolic signature found by trying "
                     "the known (key, session id) pairs) and its realisation of the adversary scripts",
-                    "hooks: network/src/verif/{handshake,handshake_gossip,handshake_consensus,pool}.rs (thin wrappers)"],
+                    "hooks: network/src/verif/{handshake,handshake_gossip,handshake_consensus,pool}.rs (thin wrappers) and the "
+                    "feature-guarded PoolWatch::verif_lock accessor appended to pool.rs"],
         "assumptions": ["symbolic cryptography: a signature verifies only for the (key, message) it was made for; node keys "
                         "and validator keys are different schemes; validator::Msg variants are domain-separated",
                         "distinct Noise sessions have distinct handshake hashes (monitored, never observed to fail)",
-                        "each PoolWatch::insert/remove is atomic (watch.rs async mutex)"],
+                        "each PoolWatch::insert/remove is one critical section under the watch.rs async mutex (tested under "
+                        "forced contention by the pool_contended ops, not proved)"],
         "explanation": "decision iff + symbolic attribution (with the F8 negation witness) + pool invariants/refinement + "
                        "admission invariants in Lean; K compares verdict, error class, frames written and pool contents of the "
                        "real code with the models; S checks attribution / session binding / committee / quota on the real code "
